@@ -22,7 +22,7 @@ REAL.update({"n%d" % i: b"urn:nfc:sn:svc%d" % i for i in range(1, 21)})
 ERR = {errno.EADDRINUSE: "InUse", errno.EACCES: "Access", errno.EFAULT: "Fault", errno.EAGAIN: "Exhausted",
        errno.EADDRNOTAVAIL: "Exhausted", errno.EINVAL: "Invalid", errno.EOPNOTSUPP: "OpNotSupp",
        errno.ENOTSUP: "NotSup", errno.ESHUTDOWN: "Shutdown", errno.EDESTADDRREQ: "DestReq", errno.EBADF: "BadF",
-       errno.EISCONN: "IsConn", errno.EALREADY: "Already", errno.EPIPE: "Pipe"}
+       errno.EISCONN: "IsConn", errno.EALREADY: "Already", errno.EPIPE: "Pipe", errno.ENOTCONN: "NotConn"}
 KIND = {"ldl": LDL, "dlc": DLC, "raw": RAW}
 RECVBUF, BACKLOG = 2, 1
 BLANK = dict(op="", c="A", s=0, n="", a=0, dst=0, m=0, kind="", res="OK", val=0, reach=0, got=0, cached=False)
@@ -45,6 +45,7 @@ class World(object):
         self.socks = {"A": [], "B": []}
         self.kinds = {"A": [], "B": []}
         self.pending = {}        # (side, id) -> Call of a blocked connect()
+        self.closed = {"A": set(), "B": set()}      # sockets the application has closed
         self.ev = []
         self.cur = None
 
@@ -53,7 +54,9 @@ class World(object):
         t = self.socks[c][i - 1]._tco
         k = self.kinds[c][i - 1]
         if t.state.SHUTDOWN:
-            return "shut"
+            # "dead": the socket shut itself down (DISC seen by recv(), FRMR, UI PDU) but the application has not
+            # closed it yet - it still owns its address
+            return "shut" if i in self.closed[c] or k != "dlc" else "dead"
         if k != "dlc":
             return "open"
         return {"CLOSED": "open", "LISTEN": "listen", "CONNECT": "connecting", "ESTABLISHED": "conn",
@@ -67,6 +70,12 @@ class World(object):
         if k == "dlc":
             return [[0, p.ssap] for p in t.recv_queue if p.name == "CONNECT"] if t.state.LISTEN else []
         return [[(p.data[0] if getattr(p, "data", b"") else 0), p.ssap] for p in t.recv_queue]
+
+    def find_id(self, c, t):
+        for i, s in enumerate(self.socks[c]):
+            if s._tco is t:
+                return i + 1
+        return 0
 
     def proj_side(self, c):
         L = self.llc[c]
@@ -82,7 +91,8 @@ class World(object):
         sap = []
         for a in range(64):
             x = L.sap[a]
-            if isinstance(x, llc_mod.ServiceAccessPoint) and len(x.sock_list) > 0:
+            if isinstance(x, llc_mod.ServiceAccessPoint) and a != 0:
+                # every existing access point, also one without sockets (the spec never has one)
                 sap.append([a + 1, [ids[id(t)] for t in x.sock_list]])
         snl = [[j + 1, L.snl[REAL[n]]] for j, n in enumerate(NAMESEQ) if L.snl.get(REAL[n])]
         cache = L.sap[1].snl
@@ -237,6 +247,72 @@ class World(object):
             res = abstract_error(e)
         return self.log(op="RecvFrom", c=c, s=i, m=m, a=a, kind=self.kinds[c][i - 1], res=res)
 
+    def recv(self, c, i):
+        """recv() on a connection-mode socket that has nothing to wait for (CLOSE_WAIT with the DISC indication queued,
+        or not connected at all)."""
+        self.cur = dict(op="Recv", c=c, s=i)
+        call = Call(self.socks[c][i - 1].recv)
+        wait_for(lambda: call.done, "recv() to return")
+        call.join()
+        if call.error is None:
+            res = "EOF" if call.value is None else "Data"
+        else:
+            res = abstract_error(call.error)
+        return self.log(op="Recv", c=c, s=i, kind="dlc", res=res)
+
+    def recv_ok(self, c, i):
+        st, t = self.state(c, i), self.tco(c, i)
+        if self.kinds[c][i - 1] != "dlc" or st in ("shut", "conn", "connecting", "disc"):
+            return False
+        return st != "cw" or len(t.recv_queue) > 0
+
+    def first_match(self, c, addr, ssap):
+        """The socket ServiceAccessPoint.enqueue hands a PDU from `ssap` to (llc.py:126-129)."""
+        x = self.llc[c].sap[addr] if 0 <= addr < 64 else None
+        if isinstance(x, llc_mod.ServiceAccessPoint):
+            for t in x.sock_list:
+                if t.peer == ssap or t.peer is None:
+                    return t
+        return None
+
+    def frmr_ok(self, c, i):
+        t = self.tco(c, i)
+        return self.state(c, i) == "conn" and self.first_match(c, t.addr, t.peer) is t
+
+    def peer_frmr(self, c, i):
+        """The remote device reports a protocol error on connection i: an FRMR PDU arrives for it."""
+        self.cur = dict(op="PeerFrmr", c=c, s=i)
+        t = self.tco(c, i)
+        frmr = pdu_mod.FrameReject(t.addr, t.peer, flags=1, ptype=0b1100, ns=1, nr=0, vs=0, vr=0, vsa=0, vra=0)
+        self.llc[c].dispatch(pdu_mod.decode(pdu_mod.encode(frmr)))
+        return self.log(op="PeerFrmr", c=c, s=i, kind="dlc", res="OK")
+
+    def sendto_ok(self, c, i, dst):
+        """Guard of the spec's SendTo: the UI PDU must not hit a connecting socket or a listener with pending requests."""
+        t = self.tco(c, i)
+        me = t.addr
+        if me is None:
+            free = [a for a in range(32, 64) if self.llc[c].sap[a] is None]
+            if not free:
+                return True
+            me = free[0]
+        if t.state.SHUTDOWN or (t.peer is not None and dst != t.peer) or dst in (0, 1):
+            return True
+        hit = self.first_match(self.peer(c), dst, me)
+        if hit is None or not isinstance(hit, tco_mod.DataLinkConnection):
+            return True
+        return not hit.state.CONNECT and len(hit.recv_queue) == 0
+
+    def close_ok(self, c, i):
+        st = self.state(c, i)
+        if st in ("shut", "connecting", "disc") or (st == "listen" and len(self.tco(c, i).recv_queue) > 0):
+            return False
+        if st == "conn":
+            t = self.tco(c, i)
+            other = self.first_match(self.peer(c), t.peer, t.addr)
+            return other is not None and isinstance(other, tco_mod.DataLinkConnection) and bool(other.state.ESTABLISHED)
+        return True
+
     def resolve(self, c, n):
         self.cur = dict(op="Resolve", c=c, n=n)
         L = self.llc[c]
@@ -262,6 +338,8 @@ class World(object):
             res = "OK" if call.error is None else abstract_error(call.error)
         else:
             res = self._call(s.close)
+        if res == "OK":
+            self.closed[c].add(i)
         return self.log(op="Close", c=c, s=i, kind=self.kinds[c][i - 1], res=res)
 
     def finish(self):
@@ -315,27 +393,133 @@ def random_ops(W, rnd, steps, sides="AB", names=None, weights=None):
                 W.accept(c, rnd.choice(ready))
         elif r < 0.86:
             if kind == "ldl":
-                cands = [a for a in range(0, 64)
-                         if not (isinstance(W.llc[p].sap[a], llc_mod.ServiceAccessPoint) and
-                                 any(isinstance(t, tco_mod.DataLinkConnection) for t in W.llc[p].sap[a].sock_list))]
+                dlc_at = [a for a in range(2, 64) if isinstance(W.llc[p].sap[a], llc_mod.ServiceAccessPoint) and
+                          any(isinstance(t, tco_mod.DataLinkConnection) for t in W.llc[p].sap[a].sock_list)]
+                cands = [a for a in range(0, 64) if a not in dlc_at]
                 occ = [a for a in cands if a >= 2 and W.occupied(p, a)]
-                W.sendto(c, i, rnd.choice(occ * 3 + [rnd.choice(cands)]), 1)
+                dst = rnd.choice(occ * 3 + [rnd.choice(cands)] + (dlc_at[:2] if rnd.random() < 0.25 else []))
+                if W.sendto_ok(c, i, dst):
+                    W.sendto(c, i, dst, 1)
         elif r < 0.91:
             if kind != "dlc":
                 t = W.tco(c, i)
                 bound_ok = t.addr is not None and W.occupied(c, t.addr)
                 if not bound_ok or len(t.recv_queue) > 0:
                     W.recvfrom(c, i)
-        elif r < 0.96:
+        elif r < 0.94:
             W.resolve(c, rnd.choice(names + ["wk"]))
+        elif r < 0.96:
+            cand = [j for j in live if W.recv_ok(c, j)]
+            cw = [j for j in cand if W.state(c, j) == "cw"]
+            if cand:
+                W.recv(c, rnd.choice(cw * 4 + cand))
+        elif r < 0.97:
+            cand = [j for j in live if W.frmr_ok(c, j)]
+            if cand:
+                W.peer_frmr(c, rnd.choice(cand))
         else:
-            if st != "connecting" and not (st == "listen" and len(W.tco(c, i).recv_queue) > 0):
+            if W.close_ok(c, i):
                 W.close(c, i)
 
 
 def close_ok(W, c, i):
-    st = W.state(c, i)
-    return st not in ("shut", "connecting") and not (st == "listen" and len(W.tco(c, i).recv_queue) > 0)
+    return W.close_ok(c, i)
+
+
+ENDINGS = ("peer-disc,recv,close", "peer-disc,close", "close,peer-recv,peer-close", "frmr,close", "frmr-at-client,close",
+           "ui-at-listener,close", "refused,close")
+
+
+def life(W, rnd):
+    """Connections that are ended by the peer (DISC), by a protocol error (FRMR) or by a UI PDU before - or after - the
+    application closes its socket, in every order of {peer shutdown, local close}; then the address and the service name
+    are used again: bind by number, by name, anonymously, and looked up from the peer (SDREQ)."""
+    names = NAMESEQ[1:]
+    rnd.shuffle(names)
+    endings = list(ENDINGS)
+    rnd.shuffle(endings)
+    for rd, ending in enumerate(endings[:rnd.randint(4, 7)]):
+        c = rnd.choice("AB")                     # the serving side
+        p = W.peer(c)
+        how = rnd.choice(["addr", "name", "name", "none"])
+        nm = names[rd]
+        lst = W.socket(c, "dlc")
+        if how == "addr":
+            free = [a for a in range(32, 64) if not W.occupied(c, a)]
+            W.bind_addr(c, lst, rnd.choice(free))
+        elif how == "name":
+            W.bind_name(c, lst, nm)
+        W.listen(c, lst)
+        addr = W.tco(c, lst).addr
+        if ending == "refused,close":
+            # DM to a connecting socket: connect() fails, the socket stays bound until it is closed
+            cli = W.socket(p, "dlc")
+            W.connect(p, cli, n=names[19 - rd])            # nobody is bound under that name
+            caddr = W.tco(p, cli).addr
+            W.close(p, cli)
+            again = W.socket(p, "ldl")
+            W.bind_addr(p, again, caddr)
+            W.close(c, lst)
+        else:
+            cli = W.socket(p, "dlc")
+            if how == "name" and rnd.random() < 0.7:
+                W.connect(p, cli, n=nm)
+            else:
+                W.connect(p, cli, a=addr)
+            acc = 0
+            if W.state(c, lst) == "listen" and len(W.tco(c, lst).recv_queue) > 0:
+                acc = W.accept(c, lst)["got"]
+            caddr = W.tco(p, cli).addr
+            if ending == "peer-disc,recv,close" and acc:
+                W.close(p, cli)
+                W.recv(c, acc)
+                if how == "name" and rnd.random() < 0.5:
+                    W.resolve(p, nm)
+                W.close(c, acc)
+            elif ending == "peer-disc,close" and acc:
+                W.close(p, cli)
+                W.close(c, acc)
+            elif ending == "close,peer-recv,peer-close" and acc:
+                W.close(c, acc)
+                W.recv(p, cli)
+                W.close(p, cli)
+            elif ending == "frmr,close" and acc:
+                W.peer_frmr(c, acc)
+                W.close(c, acc)
+            elif ending == "frmr-at-client,close" and acc:
+                W.peer_frmr(p, cli)
+                W.close(p, cli)
+            elif ending == "ui-at-listener,close":
+                u = W.socket(p, "ldl")
+                if W.sendto_ok(p, u, addr):
+                    W.sendto(p, u, addr, 1)            # the listening socket answers FRMR and shuts down
+                if acc and W.close_ok(c, acc) and rnd.random() < 0.5:
+                    W.close(c, acc)
+            # the listener goes last or first - the access point must disappear with its last socket only
+            for i in rnd.sample([lst, acc], 2):
+                if i and W.close_ok(c, i):
+                    W.close(c, i)
+            if W.close_ok(p, cli) and rnd.random() < 0.7:
+                W.close(p, cli)
+            # the client's dynamic address is free again only if its socket is closed
+            again = W.socket(p, rnd.choice(["ldl", "dlc"]))
+            W.bind_addr(p, again, caddr) if rnd.random() < 0.5 else W.bind_none(p, again)
+        # use the address / the name again
+        nxt = W.socket(c, rnd.choice(["dlc", "ldl"]))
+        r = rnd.random()
+        if how == "name" and r < 0.6:
+            W.bind_name(c, nxt, nm)
+        elif addr >= 32 and r < 0.8:
+            W.bind_addr(c, nxt, addr)
+        else:
+            W.bind_none(c, nxt)
+        if how == "name":
+            W.resolve(p, nm)                               # SDREQ for the name, first time from this side or cached
+        extra = W.socket(c, "ldl")
+        W.bind_none(c, extra)
+        if rnd.random() < 0.5 and W.close_ok(c, nxt):
+            W.close(c, nxt)
+    random_ops(W, rnd, 12, names=names[:3])
 
 
 def history(seed, klass):
@@ -359,7 +543,8 @@ def history(seed, klass):
                 W.resolve("B", n)
             victims = rnd.sample(ids[:16], rnd.randint(1, 4))
             for (i, n) in victims:
-                W.close("A", i)
+                if W.close_ok("A", i):
+                    W.close("A", i)
             for (i, n) in victims[:2]:
                 W.resolve("B", n) if rnd.random() < 0.5 else W.connect("B", b, n=n)
             for k in range(rnd.randint(1, 4)):
@@ -429,6 +614,8 @@ def history(seed, klass):
             j = W.socket(c, "ldl")
             W.bind_name(c, j, "wk")
             random_ops(W, rnd, 10)
+        elif klass == "life":
+            life(W, rnd)
         else:
             random_ops(W, rnd, rnd.randint(40, 110), names=NAMESEQ[1:rnd.choice([3, 5, 8])])
     except HarnessError as e:
@@ -438,7 +625,7 @@ def history(seed, klass):
     return dict(id="%s-%d" % (klass, seed), const=dict(), ev=W.ev)
 
 
-KLASSES = ("named", "dyn", "wks", "random", "random", "random")
+KLASSES = ("named", "dyn", "wks", "life", "random", "life", "random", "life")
 
 
 # ------------------------------------------------------------------------------------------------
@@ -478,26 +665,32 @@ def classify(tr, line, act, why):
         return "inv:%s@%s" % (",".join(sorted(names)), act)
     if kind == "result" and ev["op"] == "Close" and ev["res"] == "Crash":
         return "result@Close:AttributeError"
+    if kind == "post" and len(why) > 1 and why[1]:
+        # the allocation invariant on the real tables names what is wrong
+        return "real-tables:%s@%s" % (",".join(why[1]), act)
     return "%s@%s:%s" % (kind, act, tr["id"].split("-")[0])
 
 
-FAMILIES = ("alloc", "names", "dgram")
+FAMILIES = ("alloc", "names", "dgram", "life")
 ASIS = {"alloc": ("NoDoubleAlloc", "INVARIANT"), "names": ("ResolveRight", "PROPERTY"), "dgram": ("NoDoubleAlloc", "INVARIANT")}
-ASIS_EXTRA = (("names", "InUseRight", "PROPERTY"), ("names", "ConnectByName", "PROPERTY"))
+ASIS_EXTRA = (("names", "InUseRight", "PROPERTY"), ("names", "ConnectByName", "PROPERTY"),
+              ("life:keep", "FreedOnLastClose", "INVARIANT"))      # close() that leaves a dead socket in its access point
 WITNESSES = {"alloc": ["W_NamedExhausted", "W_DynExhausted", "W_WksBound", "W_Access"],
-             "names": ["W_Shared", "W_Resolved", "W_ByName"], "dgram": ["W_Delivered"]}
+             "names": ["W_Shared", "W_Resolved", "W_ByName"], "dgram": ["W_Delivered"],
+             "life": ["W_DeadByRecv", "W_DeadByFrmr", "W_DeadByUi", "W_DeadNamed", "W_RebindAfterDead"]}
 
 
 def single_property_cfg(family, name, kind, tag):
     """The shipped-code model of a family with exactly one property, written to the scratch directory."""
     import os
     from vlib import SPEC, OUT
-    base = open(os.path.join(SPEC, "MC_LlcpAddr_%s_asis.cfg" % family)).read()
+    fam, _, variant = family.partition(":")
+    base = open(os.path.join(SPEC, "MC_LlcpAddr_%s_%s.cfg" % (fam, variant or "asis"))).read()
     lines = [ln for ln in base.splitlines() if not ln.startswith(("INVARIANT", "PROPERTY"))]
     lines.append("%s %s" % (kind, name))
     d = os.path.join(OUT, PID)
     os.makedirs(d, exist_ok=True)
-    path = os.path.join(d, "asis_%s_%s_%d.cfg" % (family, name, os.getpid()))
+    path = os.path.join(d, "asis_%s_%s_%d.cfg" % (family.replace(":", "_"), name, os.getpid()))
     open(path, "w").write("\n".join(lines) + "\n")
     return path
 
@@ -509,9 +702,9 @@ def run(tier, seed):
     quick = tier == "quick"
     suffix = "" if quick else "_thorough"
     # 1. exhaustive, scaled table, the repaired design: all invariants and step properties hold
-    with cf.ThreadPoolExecutor(max_workers=3) as ex:
+    with cf.ThreadPoolExecutor(max_workers=4) as ex:
         futs = {k: ex.submit(tlc.run, "MC_LlcpAddr.tla", "MC_LlcpAddr_%s%s.cfg" % (k, suffix), PID + "/" + k,
-                             workers=5, timeout=400 if quick else 2400) for k in FAMILIES}
+                             workers=4, timeout=400 if quick else 2400) for k in FAMILIES}
         res = {k: f.result() for k, f in futs.items()}
     for k, r in res.items():
         if not r.ok:
@@ -526,10 +719,10 @@ def run(tier, seed):
         f, n, k = job
         path = single_property_cfg(f, n, k, PID)
         try:
-            return job, tlc.run("MC_LlcpAddr.tla", path, PID + "/asis_%s_%s" % (f, n), workers=2, timeout=400)
+            return job, tlc.run("MC_LlcpAddr.tla", path, PID + "/asis_%s_%s" % (f.replace(":", "_"), n), workers=2, timeout=400)
         finally:
             os.remove(path)
-    with cf.ThreadPoolExecutor(max_workers=5) as ex:
+    with cf.ThreadPoolExecutor(max_workers=6) as ex:
         for (f, n, k), r in ex.map(one, jobs):
             if n not in r.violated:
                 raise tlc.TLCError("model of the shipped code (%s) does not violate %s: property is vacuous" % (f, n))
@@ -590,7 +783,8 @@ def run(tier, seed):
     ck.sample(dict(mc={k: dict(distinct=r.distinct, depth=r.depth) for k, r in res.items()}))
     ck.assume("non-threaded binding: the link settles after every call; connect()/accept()/close()/resolve() run in helper threads the harness waits for",
               "exhaustive runs use an 8-slot table (0-2 / 3-4 / 5-7) in three role-restricted families; the 64-slot table is covered by trace validation only",
-              "EADDRNOTAVAIL and EAGAIN are one abstract error (Exhausted); connects to a free address / datagrams to a DLC socket / calls on closed sockets are not issued")
+              "EADDRNOTAVAIL and EAGAIN are one abstract error (Exhausted); connects to a free address, calls on closed sockets, UI PDUs at a connecting socket or a listener with pending requests, and close() of a connection whose other end is gone are not issued (they block by design)",
+              "FRMR on an established connection is injected with dispatch() (two well-behaved controllers never send one)")
     return ck.finish()
 
 
